@@ -41,7 +41,8 @@ HELPERS = {"rl_blox.blox.target_net.soft_target_net_update": "soft", "rl_blox.bl
 
 # (function, documented kind, required cadence literal patterns, extra allowed literal patterns) - confirmed by reading the
 # docstrings / algorithm descriptions.  `C` stands for any single identifier (the loop's own counter variable).
-WARM = [r"LtE\(learning_starts, C\)", r"Lt\(batch_size, C\)", r"Lt\(learning_starts, C\)"]
+# warm-up gates and the step-budget guard of the loop itself (`while True: if not step < total_timesteps: break`) carry no cadence
+WARM = [r"LtE\(learning_starts, C\)", r"Lt\(batch_size, C\)", r"Lt\(learning_starts, C\)", r"Lt\(C, total_timesteps\)"]
 CADENCE = {
     "rl_blox.algorithm.nature_dqn.train_nature_dqn": ("hard", [r"Eq\(0, mod\(C, target_update_frequency\)\)"], WARM, 1),
     "rl_blox.algorithm.ddqn.train_ddqn": ("hard", [r"Eq\(0, mod\(C, target_update_frequency\)\)"], WARM, 1),
